@@ -247,6 +247,21 @@ def pollJoinHandle (F : Lens U FutHeap) (b : Nat) : Prog U LeafRes := do
     pure (.ready (if ok then "ok" else "cancelled"))
   | none => pure (.pending .joining)
 
+/-- `fpoll b`: one `JoinHandle::poll` with the current task's waker, outside any await: the handle is taken out of the
+table, polled once, dropped when `Ready` (→ `detach`) and put back when `Pending`.  The waker stored by a `Pending` poll is
+the *latest* poller's, so a handle polled by one task and awaited by another wakes the latter. -/
+def pollOnce (F : Lens U FutHeap) (b : Nat) : Prog U String := do
+  let j ← K.getL (joinL F b)
+  if !j.handle then pure "nohandle" else do
+    K.setL (joinL F b) { j with handle := false }
+    let r ← pollJoinHandle F b
+    match r with
+    | .ready s => pure s!"ready:{s}"
+    | .pending _ => do
+      let j' ← K.getL (joinL F b)
+      K.setL (joinL F b) { j' with handle := true }
+      pure "pending"
+
 /-- one poll of the leaf future of an async op, in state `st`, by the current task -/
 def pollLeaf (F : Lens U FutHeap) (semL : Nat → Lens U SemState) : AOp → Stage → Prog U LeafRes
   | .join b, .init => do
